@@ -73,7 +73,7 @@ theorem norm_wf (i : Index) (h : WF i) : WF (norm i) := wf_norm i h
 `chunks_complete`, `bai_read_write` and `chunks_norm` -/
 theorem bai_chunks_complete_after_roundtrip (recs : List Bai.BaiRec)
     (h : SortedInput (recs.map Hts.Props.C04.baiRec)) (hwf : WF (Hts.Props.C04.baiBuilt recs))
-    (r : Bai.BaiRec) (hr : r ∈ recs) (hp : (Hts.Props.C04.baiRec r).placed = true)
+    (r : Bai.BaiRec) (hr : r ∈ recs) (hp : (Hts.Props.C04.baiRec r).placed = true) (hne : r.pos < r.stop)
     (beg stop : Int) (hb : 0 ≤ beg) (hq : beg < stop) (hs29 : stop ≤ 536870912)
     (hov1 : r.pos < stop) (hov2 : beg < r.stop) (s : List Chunk → List Chunk) (hs : EncLaw s) :
     ∃ i', readBai (writeBai (Hts.Props.C04.baiBuilt recs)) = .ok i' ∧
@@ -81,7 +81,7 @@ theorem bai_chunks_complete_after_roundtrip (recs : List Bai.BaiRec)
         coveredBy cs r.chunk := by
   refine ⟨norm (Hts.Props.C04.baiBuilt recs), readBai_writeBai _ hwf, ?_⟩
   rw [bai_chunks_norm]
-  exact (Hts.Props.C04.bai_chunks_complete recs h r hr hp beg stop hb hq hs29 hov1 hov2 id s encLaw_id hs).1
+  exact (Hts.Props.C04.bai_chunks_complete recs h r hr hp hne beg stop hb hq hs29 hov1 hov2 id s encLaw_id hs).1
 
 /-- "or previously read" (BAI): WHATEVER byte string `bam.ReadIndex` accepts, the index it returns is
 well-formed, so writing it and reading it back gives its canonical form, the same bytes on every
